@@ -103,6 +103,55 @@ class Pools:
                     out.append((os.path.relpath(d, base), n_in))
         return out
 
+    STR_ATTR_VALUES = {"direction": ["forward", "reverse", "bidirectional"], "mode": ["constant", "reflect", "edge", "linear", "nearest", "cubic"],
+                       "auto_pad": ["NOTSET", "SAME_UPPER", "SAME_LOWER", "VALID"], "reduction": ["none", "add", "mul", "max", "min"],
+                       "coordinate_transformation_mode": ["half_pixel", "align_corners", "asymmetric"], "nearest_mode": ["floor", "ceil"],
+                       "padding_mode": ["zeros", "border", "reflection"], "approximate": ["none", "tanh"]}
+
+    def backend_attr_family(self, rng: Rng) -> list[dict] | None:
+        """One onnx backend node test, fully lifted (every input an initializer, so its node is constant-foldable), plus
+        variants of it that differ in the value of ONE attribute (declared or defaulted in the schema): same operator and
+        dtypes, some of them not supported by the reference kernel. Returns model refs tagged with family 'op:<OpType>'."""
+        import onnx
+
+        base = os.path.join(os.path.dirname(onnx.__file__), "backend", "test", "data")
+        for _ in range(12):
+            path, n_in = rng.choice(self.backend_models)
+            if not path.startswith("node/") or n_in == 0:
+                continue
+            try:
+                mp = onnx.load(os.path.join(base, path, "model.onnx"))
+            except Exception:  # noqa: BLE001
+                continue
+            if len(mp.graph.node) != 1:
+                continue
+            node = mp.graph.node[0]
+            try:
+                schema = onnx.defs.get_schema(node.op_type, mp.opset_import[0].version, node.domain)
+            except Exception:  # noqa: BLE001
+                continue
+            cands = []
+            for name, a in schema.attributes.items():
+                if a.type == onnx.defs.OpSchema.AttrType.INT:
+                    cur = next((x.i for x in node.attribute if x.name == name), None)
+                    for v in (0, 1, 2, 16, -1):
+                        if v != cur:
+                            cands.append({"node": 0, "attr": name, "int": v})
+                elif a.type == onnx.defs.OpSchema.AttrType.STRING and name in self.STR_ATTR_VALUES:
+                    cur = next((x.s.decode() for x in node.attribute if x.name == name), None)
+                    for v in self.STR_ATTR_VALUES[name]:
+                        if v != cur:
+                            cands.append({"node": 0, "attr": name, "str": v})
+            if not cands:
+                continue
+            fam = "op:" + node.op_type
+            lift = list(range(n_in))
+            out = [{"pool": "onnx_backend", "path": path, "lift": lift, "family": fam}]
+            for mut in rng.sample(cands, min(3, len(cands))):
+                out.append({"pool": "onnx_backend", "path": path, "lift": lift, "attr_mut": mut, "family": fam})
+            return out
+        return None
+
     # ---------------------------------------------------------------- op construction
     def op_translate(self, rng: Rng, flavour: str | None = None) -> dict:
         flavour = flavour or rng.weighted([("gen", 6), ("models", 3), ("backend", 3), ("bad", 1)])
